@@ -124,6 +124,17 @@ func genSelector(c *Ctx) {
 			emit("sel/slice2", ".["+a+"][]["+b+"]?", wrap)
 		}
 	}
+	// the dotted spelling of bracket segments (".a?.[0]?"), which puts an identity segment between two others:
+	// every sequence of up to three segments, most of them following an optional segment that does not apply
+	dotAlpha := []string{".a", ".a?", ".zz?", ".[0]", ".[0]?", ".[7]?", `.["a"]`, `.["zz"]?`, ".[]", ".[]?", ".[1:]", ".[1:]?", "[0]?", "[]?", `["a"]?`}
+	for _, a := range dotAlpha {
+		for _, b := range dotAlpha {
+			emit("sel/dotted", mk([]string{a, b}), vals)
+			for _, d := range dotAlpha {
+				emit("sel/dotted", mk([]string{a, b, d}), sub)
+			}
+		}
+	}
 	// numerals with leading zeros or signs in bounds and indexes, on containers long enough to tell 8 from 10
 	long := []datamodel.Node{J(`[0,1,2,3,4,5,6,7,8,9,10,11,12,13,14,15,16,17]`), J(`"abcdefghijklmnopqr"`)}
 	for _, f := range []string{"010", "007", "-011", "+5", "00", "-0", "012", "-010"} {
